@@ -141,7 +141,8 @@ int main(int argc, char** argv) {
               .kv("commits_with_objects_replayed", cnt.objCommits).kv("levels_checked", levels)
               .kv("max_attempts_without_commit", c.maxSinceCommit.load())
               .kv("per_iter_alloc_growth_cases", piaStressCases)
-              .kv("multi_socket_cases", (int)(nsock > 1 && c.threads > 1)).str());
+              .kv("multi_socket_cases", (int)(nsock > 1 && c.threads > 1))
+              .kv(("cases_" + c.family + (c.conflicts ? "_cd" : "_nocd")).c_str(), 1).str());
     g_case = nullptr;
   }
   return 0;
